@@ -41,7 +41,7 @@ import ast
 import re
 from typing import Callable, Dict, List, Optional, Sequence, Set, Tuple
 
-from engines import absdom, asyncfacts as af, guards, inline, pyfacts as pf
+from engines import absdom, asyncfacts as af, c30facts as cx, guards, inline, pyfacts as pf
 from engines.guards import Facts
 from engines.common import AnalysisError, Ctx, short
 
@@ -115,34 +115,126 @@ def _gen(e: ast.expr) -> Optional[Tuple[str, ast.expr, str, str]]:
     return None
 
 
+_MODULE: Dict[str, pf.Module] = {}
+_STATUS_MEMBERS: List[str] = []
+
+
+def _global_const(name: str) -> Optional[ast.AST]:
+    """module-level definition of a name in ci/ci/github.py (constants moved to module level are read as their value)"""
+    m = _MODULE.get('m')
+    if m is None:
+        return None
+    try:
+        return m.global_assign(name)
+    except AnalysisError:
+        return None
+
+
+def _status_members() -> List[str]:
+    """member names of the GithubStatus enum (the finite domain of a reported check state)"""
+    if not _STATUS_MEMBERS:
+        found: List[str] = []
+        for rel in pf.walk_py(['ci/ci']):
+            for c in pf.load(rel).classes():
+                if c.name == 'GithubStatus':
+                    found = [t.id for st in c.body if isinstance(st, ast.Assign) for t in st.targets if isinstance(t, ast.Name)]
+        _STATUS_MEMBERS.extend(found or ['SUCCESS', 'PENDING', 'FAILURE'])
+    return _STATUS_MEMBERS
+
+
+def _status_member(e: ast.AST) -> Optional[object]:
+    d = pf.dotted(e) or ''
+    if d.startswith('GithubStatus.') and d.split('.', 1)[1] in _status_members():
+        return d.split('.', 1)[1]
+    return None
+
+
+def _is_plain_path(e: ast.AST) -> bool:
+    """`self.a.b['k']`: an access path (attributes / constant subscripts) rooted at self"""
+    cur = e
+    while True:
+        if isinstance(cur, ast.Attribute):
+            cur = cur.value
+        elif isinstance(cur, ast.Subscript) and isinstance(cur.slice, ast.Constant):
+            cur = cur.value
+        else:
+            return isinstance(cur, ast.Name) and cur.id == 'self'
+
+
 def _classify(e: ast.expr, pol: bool) -> Tuple[str, Optional[str]]:
-    """-> ('match'|'weak'|'related'|'harmless'|'unknown', kind)"""
+    """-> ('match'|'weak'|'harmless'|'unknown', kind).  'weak' is reserved for atoms that are fully understood and, under this polarity, let a
+    PR through that the required conjunct would stop (decided over the finite domain of the quantity the atom tests); an atom that merely
+    mentions the quantity in a shape that is not understood is 'unknown' (the rule then declines)."""
     txt = pf.nsrc(e)
-    # approved
-    if _const_eq_fact(e, pol, lambda x: pf.nsrc(x) == 'self.review_state', 'approved'):
-        return 'match', 'approved'
-    if 'self.review_state' in txt:
-        return 'weak', 'approved'
-    # statuses
-    if isinstance(e, ast.Compare) and len(e.ops) == 1 and pf.nsrc(e.left) == f'len({S_STATUS})' and isinstance(e.comparators[0], ast.Constant) \
-            and isinstance(e.comparators[0].value, int):
-        c = e.comparators[0].value
-        op = type(e.ops[0])
-        truth = {(ast.Gt, 0): True, (ast.GtE, 1): True, (ast.NotEq, 0): True, (ast.Eq, 0): False, (ast.Lt, 1): False, (ast.LtE, 0): False}
-        if (op, c) in truth:
-            return ('match', 'statuses-nonempty') if truth[(op, c)] == pol else ('weak', 'statuses-nonempty')
-        return 'weak', 'statuses-nonempty'
-    if txt == S_STATUS:
-        return ('match', 'statuses-nonempty') if pol else ('weak', 'statuses-nonempty')
+    # ---- approved: the atom as a predicate of review_state over {'approved', the other constants it names, any other state}
+    if af.mentions(e, 'self.review_state'):
+        named: List[object] = ['approved']
+        for x in ast.walk(e):
+            ok, v = cx.const_value(x, _global_const)
+            if ok and isinstance(v, str) and v not in named:
+                named.append(v)
+        dom = named + [cx.OTHER]
+
+        def member(x: ast.AST) -> Optional[object]:
+            ok, v = cx.const_value(x, _global_const)
+            return v if ok and (isinstance(v, str) or v is None) else None
+        e2 = e
+        if isinstance(e, ast.Compare) and len(e.ops) == 1 and isinstance(e.ops[0], (ast.In, ast.NotIn)) and isinstance(e.comparators[0], ast.Name):
+            coll = cx.const_collection(e.comparators[0], _global_const)
+            if coll is not None:
+                e2 = ast.Compare(left=e.left, ops=e.ops, comparators=[ast.Tuple(elts=[ast.Constant(value=v) for v in coll], ctx=ast.Load())])
+        tt = cx.truth_over(e2, lambda x: pf.nsrc(x) == 'self.review_state', member, dom + [None])
+        if tt is None:
+            return 'unknown', None
+        passes = [d for d in dom + [None] if tt[d] == pol]
+        if passes == ['approved']:
+            return 'match', 'approved'
+        if any(d != 'approved' for d in passes):
+            return 'weak', 'approved'
+        return 'unknown', None
+    # ---- statuses non-empty: the atom as a predicate of n = len(status map) over {0, 1, 2}
+    n_truth: Optional[Dict[int, bool]] = None
+    if isinstance(e, ast.Compare) and len(e.ops) == 1:
+        for x, c, flipped in ((e.left, e.comparators[0], False), (e.comparators[0], e.left, True)):
+            okc, cv = cx.const_value(c, _global_const)
+            if pf.nsrc(x) == f'len({S_STATUS})' and okc and isinstance(cv, int) and not isinstance(cv, bool):
+                table = {ast.Gt: lambda a, b: a > b, ast.GtE: lambda a, b: a >= b, ast.Lt: lambda a, b: a < b, ast.LtE: lambda a, b: a <= b,
+                         ast.Eq: lambda a, b: a == b, ast.NotEq: lambda a, b: a != b}
+                f = table.get(type(e.ops[0]))
+                if f is not None:
+                    n_truth = {n: (f(cv, n) if flipped else f(n, cv)) for n in (0, 1, 2)}
+            if pf.nsrc(x) == S_STATUS and isinstance(c, ast.Dict) and not c.keys and isinstance(e.ops[0], (ast.Eq, ast.NotEq)):
+                n_truth = {n: ((n == 0) == isinstance(e.ops[0], ast.Eq)) for n in (0, 1, 2)}
+    if txt in (S_STATUS, f'bool({S_STATUS})', f'len({S_STATUS})'):
+        n_truth = {0: False, 1: True, 2: True}
+    if n_truth is not None:
+        if n_truth[0] == pol:
+            return 'weak', 'statuses-nonempty'  # the empty map passes
+        if n_truth[1] == pol or n_truth[2] == pol:
+            return 'match', 'statuses-nonempty'
+        return 'unknown', None
+    # ---- every status SUCCESS: the quantified element as a predicate of one status over the members of GithubStatus
     g = _gen(e)
-    if g is not None and g[3] == f'{S_STATUS}.values()':
+    if g is not None and g[3] in (f'{S_STATUS}.values()', f'list({S_STATUS}.values())'):
         fname, elt, var, _ = g
-        if fname == 'all' and pol and _is_eq_fact(elt, True, var, 'GithubStatus.SUCCESS'):
-            return 'match', 'statuses-all-success'
-        if fname == 'any' and not pol and _is_eq_fact(elt, False, var, 'GithubStatus.SUCCESS'):
-            return 'match', 'statuses-all-success'
-        return 'weak', 'statuses-all-success'
-    # up to date
+        neg = False
+        while isinstance(elt, ast.UnaryOp) and isinstance(elt.op, ast.Not):
+            elt, neg = elt.operand, not neg
+        tt = cx.truth_over(elt, lambda x: isinstance(x, ast.Name) and x.id == var, _status_member, _status_members())
+        if tt is None:
+            return 'unknown', None
+        holds = {d: (v != neg) for d, v in tt.items()}
+        others = [d for d in holds if d != 'SUCCESS']
+        if fname == 'all' and pol:       # every status satisfies elt
+            if not holds['SUCCESS']:
+                return 'unknown', None
+            return ('match', 'statuses-all-success') if not any(holds[d] for d in others) else ('weak', 'statuses-all-success')
+        if fname == 'any' and not pol:   # no status satisfies elt
+            if holds['SUCCESS']:
+                return 'unknown', None
+            return ('match', 'statuses-all-success') if all(holds[d] for d in others) else ('weak', 'statuses-all-success')
+        return 'weak', 'statuses-all-success'  # `any(..)` true / `all(..)` false: some status only
+    # ---- up to date
     if _is_eq_fact(e, pol, 'self.target_branch.sha', "self.batch.attributes['target_sha']"):
         return 'match', 'up-to-date'
     s = _eq_sides(e)
@@ -151,24 +243,29 @@ def _classify(e: ast.expr, pol: bool) -> Tuple[str, Optional[str]]:
     if txt == 'self.batch':
         return 'harmless', None
     if 'self.batch.attributes' in txt or 'self.target_branch.sha' in txt:
-        return 'weak', 'up-to-date'
-    # labels
-    if g is not None and g[3] == 'self.labels':
+        # a comparison of two plain fields / constants is understood (and is not the required one); anything else is not
+        if s is not None and all(_is_plain_path(x) or isinstance(x, ast.Constant) for x in (e.left, e.comparators[0])):  # type: ignore[attr-defined]
+            return 'weak', 'up-to-date'
+        return 'unknown', None
+    # ---- labels
+    if g is not None and g[3] in ('self.labels', 'list(self.labels)', 'sorted(self.labels)'):
         fname, elt, var, _ = g
-        if isinstance(elt, ast.Compare) and len(elt.ops) == 1 and pf.nsrc(elt.left) == var and pf.nsrc(elt.comparators[0]) == 'DO_NOT_MERGE':
+        if isinstance(elt, ast.Compare) and len(elt.ops) == 1 and pf.nsrc(elt.left) == var and pf.nsrc(elt.comparators[0]) == 'DO_NOT_MERGE' \
+                and isinstance(elt.ops[0], (ast.In, ast.NotIn)):
             if fname == 'all' and pol and isinstance(elt.ops[0], ast.NotIn):
                 return 'match', 'no-do-not-merge-label'
             if fname == 'any' and not pol and isinstance(elt.ops[0], ast.In):
                 return 'match', 'no-do-not-merge-label'
-            return 'weak', 'no-do-not-merge-label'
+            return 'weak', 'no-do-not-merge-label'  # understood quantifier / membership, not the required combination
+        return 'unknown', None
     if txt in ('DO_NOT_MERGE.isdisjoint(self.labels)', 'self.labels.isdisjoint(DO_NOT_MERGE)'):
         return ('match', 'no-do-not-merge-label') if pol else ('weak', 'no-do-not-merge-label')
     if txt in ('DO_NOT_MERGE & self.labels', 'self.labels & DO_NOT_MERGE', 'self.labels.intersection(DO_NOT_MERGE)', 'DO_NOT_MERGE.intersection(self.labels)'):
         return ('match', 'no-do-not-merge-label') if not pol else ('weak', 'no-do-not-merge-label')
-    if 'DO_NOT_MERGE' in txt:
-        return 'weak', 'no-do-not-merge-label'
-    if S_STATUS in txt:
-        return 'related', 'statuses-all-success'
+    if 'DO_NOT_MERGE' in txt or S_STATUS in txt or 'self.labels' in txt:
+        return 'unknown', None
+    if isinstance(e, ast.Call) and (pf.dotted(e.func) or '').startswith('self.'):
+        return 'unknown', None  # a helper that could not be read as an expression
     return 'unknown', None
 
 
@@ -191,7 +288,7 @@ def _classify_disjunction(facts: Facts, e: ast.BoolOp) -> List[Tuple[str, Option
             for c, k in sub:
                 if c == 'match':
                     match.add(k)  # type: ignore[arg-type]
-                elif c in ('weak', 'related'):
+                elif c == 'weak':
                     rel.add(k)  # type: ignore[arg-type]
                 elif c == 'unknown':
                     unknown = True
@@ -216,23 +313,15 @@ def _is_false_const(e: Optional[ast.expr]) -> bool:
 
 def _check_is_mergeable(ctx: Ctx, m: pf.Module, facts: Facts) -> None:
     fn = m.func('PR.is_mergeable')
-    pre: List[Fact] = []
     analysed = 0
-    for st in fn.body:
-        if isinstance(st, ast.Expr) and isinstance(st.value, ast.Constant):
-            continue
-        rets = [n for n in pf.walk_shallow(st) if isinstance(n, ast.Return)]
-        if isinstance(st, ast.If) and not st.orelse and st.body and isinstance(st.body[-1], ast.Return) and _is_false_const(st.body[-1].value) and len(rets) == 1:
-            pre += facts.false(st.test)  # `if c: [logging ...]; return False`: a true result needs not c
-            continue
-        if not rets:
-            continue  # logging / assertions: cannot make the result true
-        ctx.need(isinstance(st, ast.Return), f'PR.is_mergeable: return nested in `{short(pf.nsrc(st), 50)}` is not a recognised shape')
-        if _is_false_const(st.value):
-            continue
-        ctx.need(st.value is not None, 'PR.is_mergeable: bare return')
+    # the condition under which is_mergeable returns a truthy value, as one and/or/not expression: guard clauses, if/else, nested ifs,
+    # single-definition locals and helper predicates are spellings of the same structure (engines/c30facts.to_bool)
+    cond = cx.to_bool(fn, lenient=True)
+    ctx.need(cond is not None, 'PR.is_mergeable: the body is not a side-effect-free decision list (if / return / locals) - unrecognised shape')
+    if not (isinstance(cond, ast.Constant) and not cond.value):
         analysed += 1
-        fs = pre + facts.true(st.value)
+        st = fn
+        fs = facts.true(cond)  # type: ignore[arg-type]
         # drop the un-inlined helper call atoms whose inlining is present
         inlined_calls = {id(e) for e, _ in fs if facts.inline(e, 1) is not None}
         have: Dict[str, str] = {}
@@ -246,13 +335,19 @@ def _check_is_mergeable(ctx: Ctx, m: pf.Module, facts: Facts) -> None:
                 for c, kind in _classify_disjunction(facts, e):
                     classified.append((e, pol, c, kind))
                 continue
+            if not pol and isinstance(e, ast.BoolOp) and isinstance(e.op, ast.And):
+                # not (a and b) == (not a) or (not b)
+                neg = ast.BoolOp(op=ast.Or(), values=[ast.UnaryOp(op=ast.Not(), operand=v) for v in e.values])
+                for c, kind in _classify_disjunction(facts, neg):
+                    classified.append((e, pol, c, kind))
+                continue
             c, kind = _classify(e, pol)
             classified.append((e, pol, c, kind))
         for e, pol, c, kind in classified:
             desc = ('' if pol else 'not ') + short(pf.nsrc(e), 90)
             if c == 'match':
                 have[kind] = desc  # type: ignore[index]
-            elif c in ('weak', 'related'):
+            elif c == 'weak':
                 weak.setdefault(kind, desc)  # type: ignore[arg-type]
             elif c == 'unknown':
                 unknown.append(desc)
@@ -261,12 +356,12 @@ def _check_is_mergeable(ctx: Ctx, m: pf.Module, facts: Facts) -> None:
             if kind in have:
                 ctx.ok('R2', cons, have[kind])
             elif kind in weak:
-                ctx.bad('R2', cons, f'the returned conjunction does not require `{kind}`; the nearest conjunct is `{weak[kind]}`, which is weaker: {WHY[kind]}',
+                ctx.bad('R2', cons, f'a true result of is_mergeable does not require `{kind}`; the nearest conjunct is `{weak[kind]}`, which is weaker: {WHY[kind]}',
                         m.path, st.lineno)
             elif unknown:
                 raise AnalysisError(f'PR.is_mergeable: no conjunct for `{kind}` and unrecognised conjunct(s) {unknown[:3]} - cannot decide')
             else:
-                ctx.bad('R2', cons, f'the returned conjunction has no conjunct for `{kind}`: {WHY[kind]}', m.path, st.lineno)
+                ctx.bad('R2', cons, f'a true result of is_mergeable needs no conjunct for `{kind}` (every condition on the way to it is understood): {WHY[kind]}', m.path, st.lineno)
     ctx.need(analysed >= 1, 'PR.is_mergeable: no result-bearing return found')
     # DO_NOT_MERGE
     v = m.global_assign('DO_NOT_MERGE')
@@ -389,6 +484,8 @@ def _check_callers(ctx: Ctx, mods: List[pf.Module], m: pf.Module, facts: Facts, 
     ctx.need(sites, 'no `…/pulls/{n}/merge` request found in ci/ci (anchor vanished)')
     in_merge = [x for x in sites if x[0].rel == F and x[1] == 'PR.merge']
     for mod, qual, c in sites:
+        if mod.rel == F and qual != 'PR.merge' and _only_reached_from(mods, 'PR', qual, 'PR.merge'):
+            raise AnalysisError(f'{qual}: the merge request is issued by a private helper reached only from PR.merge (pin / single-request analysis not done through the helper)')
         ok = mod.rel == F and qual == 'PR.merge' and c is in_merge[0][2]
         why = ('the GitHub merge request is issued outside PR.merge, i.e. not behind the is_mergeable gate of try_to_merge' if not (mod.rel == F and qual == 'PR.merge')
                else 'PR.merge issues a second merge request: the pinned head / single-merge analysis covers one request per call')
@@ -404,34 +501,66 @@ def _check_callers(ctx: Ctx, mods: List[pf.Module], m: pf.Module, facts: Facts, 
         ctx.bad('R1', f'{mod.rel}::{qual}::graphql {g}', f'a GraphQL `{g}` mutation is issued: a second way to merge that is neither behind the is_mergeable gate of '
                 'try_to_merge nor pinned to the head commit the checks were read for (e.g. auto-merge merges once GitHub\'s own rules are met, whatever CI\'s '
                 'review / batch / label state says)', mod.path, getattr(n, 'lineno', 0))
-    # callers of PR.merge
+    # callers of PR.merge: try_to_merge is analysed with its private helpers inlined (a merge step extracted into a helper is still part of it)
     merge_calls: List[Tuple[pf.FuncDef, str, ast.Call]] = []
+    m_ttm, il_ttm = inline.inline_methods(m, 'WatchedBranch', 'try_to_merge')
+    ttm_fn = m_ttm.func('WatchedBranch.try_to_merge')
+    ttm_inlined = {h for h, _ in il_ttm.inlined}
+
+    def merge_calls_in(fn: pf.FuncDef) -> List[ast.Call]:
+        return [c for c in pf.calls_in(fn) if isinstance(c.func, ast.Attribute) and c.func.attr == 'merge']
+
+    def looks_pr(c: ast.Call) -> bool:
+        recv = pf.nsrc(c.func.value)  # type: ignore[attr-defined]
+        argt = ' '.join(pf.nsrc(a) for a in c.args)
+        return 'pr' in recv.lower().replace('.', ' ').replace('_', ' ').split() or 'merge_candidate' in recv or recv.lower().endswith('pr') \
+            or 'gh' in argt.replace('.', ' ').split() or 'deck' in recv.lower() or 'candidate' in recv.lower()
     for mod in mods:
         for qual, fn in mod.functions():
-            for c in pf.calls_in(fn):
-                if isinstance(c.func, ast.Attribute) and c.func.attr == 'merge':
-                    recv = pf.nsrc(c.func.value)
-                    argt = ' '.join(pf.nsrc(a) for a in c.args)
-                    looks_pr = 'pr' in recv.lower().replace('.', ' ').replace('_', ' ').split() or 'merge_candidate' in recv or recv.lower().endswith('pr') \
-                        or 'gh' in argt.replace('.', ' ').split()
-                    ctx.need(looks_pr, f'{mod.rel}::{qual}: cannot tell whether `{short(pf.nsrc(c), 60)}` is PR.merge')
-                    cons = f'{mod.rel}::{qual}::{short(pf.nsrc(c), 60)}'
-                    if not (mod.rel == F and qual == 'WatchedBranch.try_to_merge'):
-                        ctx.bad('R1', cons, 'PR.merge is called outside WatchedBranch.try_to_merge: the merge is not gated by the branch being mergeable / '
-                                'not frozen and is not limited to one per target update', mod.path, c.lineno)
-                        continue
-                    merge_calls.append((fn, recv, c))
-                    cfg = pf.cfg(fn)
-                    goal_nodes = cfg.node_of(c)
-                    ctx.need(goal_nodes, f'{cons}: not found in CFG')
-                    starts = _def_nodes(cfg, recv) if isinstance(c.func.value, ast.Name) else []
-                    starts = starts or [cfg.entry]
-                    want = f'{recv}.is_mergeable()'
-                    path = _unguarded_path(cfg, facts, starts, lambda n: any(n is g for g in goal_nodes),
-                                           lambda e, pol: pol and pf.nsrc(e) == want)
-                    ctx.check(path is None, 'R1', cons,
-                              f'`{recv}.merge` is reachable without `{want}` having been true ' + (f'[{_fmt_path(path)}]' if path else '')
-                              + ': an unapproved / untested / out-of-date PR is merged', mod.path, c.lineno, detail={'gate': want})
+            for c in merge_calls_in(fn):
+                ctx.need(looks_pr(c), f'{mod.rel}::{qual}: cannot tell whether `{short(pf.nsrc(c), 60)}` is PR.merge')
+                if mod.rel == F and qual == 'WatchedBranch.try_to_merge':
+                    continue  # judged below on the inlined function
+                if mod.rel == F and qual.startswith('WatchedBranch.') and qual.split('.')[1] in ttm_inlined and _only_reached_from(mods, 'WatchedBranch', qual, 'WatchedBranch.try_to_merge'):
+                    continue  # a private helper of try_to_merge: seen inlined
+                ctx.bad('R1', f'{mod.rel}::{qual}::{short(pf.nsrc(c), 60)}', 'PR.merge is called outside WatchedBranch.try_to_merge: the merge is not gated by the branch being mergeable / '
+                        'not frozen and is not limited to one per target update', mod.path, c.lineno)
+    fn = ttm_fn
+    cfg = pf.cfg(fn)
+    locs = sorted({(c.lineno, c.col_offset) for c in merge_calls_in(fn)})
+    for c in merge_calls_in(fn):
+        recv_e = c.func.value  # type: ignore[attr-defined]
+        recv = pf.nsrc(recv_e)
+        nth = locs.index((c.lineno, c.col_offset)) + 1
+        cons = f'{F}::WatchedBranch.try_to_merge::merge call' + (f' #{nth}' if nth > 1 else '')
+        merge_calls.append((fn, recv, c))
+        goal_nodes = cfg.node_of(c)
+        ctx.need(goal_nodes, f'{cons}: not found in CFG')
+        # the PR object merged and the PR object tested are compared as values: a local alias of the candidate is read through
+        canon = pf.nsrc(pf.expand_locals(fn, recv_e))
+        starts = _def_nodes(cfg, recv) if isinstance(recv_e, ast.Name) else []
+        starts = starts or [cfg.entry]
+
+        def gate(e: ast.expr, pol: bool) -> bool:
+            if not (pol and isinstance(e, ast.Call) and isinstance(e.func, ast.Attribute) and e.func.attr == 'is_mergeable' and not e.args and not e.keywords):
+                return False
+            r2 = e.func.value
+            return pf.nsrc(r2) == recv or pf.nsrc(pf.expand_locals(fn, r2)) == canon
+        # the conjuncts to the left of the call in its own test (`x is not None and x.is_mergeable() and await x.merge(gh)`) hold when it is evaluated
+        if all(g.kind == 'test' and isinstance(g.ast, ast.expr) and any(gate(e, pol) for e, pol in cx.evaluated_facts(facts, g.ast, c)) for g in goal_nodes):
+            ctx.ok('R1', cons, {'gate': f'{recv}.is_mergeable()', 'where': 'same condition, evaluated before the merge call'})
+            continue
+        path = _unguarded_path(cfg, facts, starts, lambda n: any(n is g for g in goal_nodes), gate)
+        if path is not None:
+            # a verdict needs every test on the witness path to be understood as not being the gate
+            opaque = [n for n in path if n.kind == 'test' and isinstance(n.ast, ast.expr) and any(
+                isinstance(x, ast.Call) and isinstance(x.func, ast.Attribute) and x.func.attr == 'is_mergeable' for x in ast.walk(pf.expand_locals(fn, n.ast)))
+                and not any(gate(e, pol) for lab in ('T', 'F') for e, pol in facts.edge(n, lab))
+                and pf.nsrc(pf.expand_locals(fn, n.ast)).count(canon + '.is_mergeable()') + pf.nsrc(n.ast).count(recv + '.is_mergeable()') > 0]
+            ctx.need(not opaque, f'{cons}: `{short(pf.nsrc(opaque[0].ast), 60) if opaque else ""}` tests is_mergeable of the merged PR in a shape that is not understood')
+        ctx.check(path is None, 'R1', cons,
+                  f'`{recv}.merge` is reachable without `{recv}.is_mergeable()` having been true ' + (f'[{_fmt_path(path)}]' if path else '')
+                  + ': an unapproved / untested / out-of-date PR is merged', m.path, c.lineno, detail={'gate': f'{recv}.is_mergeable()'})
     ctx.need(merge_calls, 'no call of PR.merge found in WatchedBranch.try_to_merge (anchor vanished)')
     # callers of try_to_merge
     n_ttm = 0
@@ -490,29 +619,55 @@ def _only_reached_from(mods: List[pf.Module], cls: str, qual: str, root: str, de
 
 
 def _check_one_merge(ctx: Ctx, m: pf.Module, facts: Facts, merge_calls: List[Tuple[pf.FuncDef, str, ast.Call]]) -> None:
+    """After a merge call that returned a truthy value: no second merge in the same call, and `self.sha = None` before leaving.  The region
+    "the merge succeeded" starts at the call and excludes every branch edge that its result (tested in place, inside a condition with other
+    conjuncts, or through the local it was stored in) rules out."""
+    locs = sorted({(c.lineno, c.col_offset) for _, _, c in merge_calls})
     for fn, recv, c in merge_calls:
         cfg = pf.cfg(fn)
-        qual = m.qualname(fn)
+        qual = 'WatchedBranch.try_to_merge'
         all_merge_nodes = {n.id for f2, _, c2 in merge_calls if f2 is fn for n in cfg.node_of(c2)}
-        cons = f'{F}::{qual}::after {short(pf.nsrc(c), 40)}'
+        nth = locs.index((c.lineno, c.col_offset)) + 1
+        cons = f'{F}::{qual}::after merge call' + (f' #{nth}' if nth > 1 else '')
         for n in cfg.node_of(c):
-            ctx.need(n.kind == 'test', f'{qual}: the result of `{pf.nsrc(c)}` is not tested directly by an if (unrecognised shape)')
-            succ_ok = [(s, lab) for s, lab in n.succ if any(pol and (x is c or (isinstance(x, ast.Await) and x.value is c)) for x, pol in facts.edge(n, lab))]
-            ctx.need(succ_ok, f'{qual}: cannot identify the success branch of `{pf.nsrc(n.ast)}`')
-            starts = [s for s, _ in succ_ok]
+            # edges that a truthy result excludes
+            dead: Set[Tuple[int, str]] = set()
+            holder: Optional[str] = None
+            if n.kind == 'test' and isinstance(n.ast, ast.expr):
+                live = cx.labels_when_true(n.ast, c)
+                dead |= {(n.id, lab) for lab in ('T', 'F') if lab not in live}
+                starts = [(s, lab) for s, lab in n.succ if lab in live or lab not in ('T', 'F')]
+            else:
+                a = n.ast
+                val = a.value if isinstance(a, (ast.Assign, ast.AnnAssign)) else None
+                tgt = (a.targets[0] if isinstance(a, ast.Assign) and len(a.targets) == 1 else (a.target if isinstance(a, ast.AnnAssign) else None))
+                ok_shape = n.kind == 'stmt' and isinstance(tgt, ast.Name) and val is not None and (val is c or (isinstance(val, ast.Await) and val.value is c)) \
+                    and pf.single_def(fn, tgt.id) is not None
+                ctx.need(ok_shape, f'{qual}: the result of `{pf.nsrc(c)}` is neither tested in a condition nor stored in a single-definition local (unrecognised shape)')
+                holder = tgt.id  # type: ignore[union-attr]
+                for t in cfg.nodes:
+                    if t.kind == 'test' and isinstance(t.ast, ast.expr) and any(isinstance(x, ast.Name) and x.id == holder for x in ast.walk(t.ast)):
+                        hn = [x for x in absdom.bool_atoms(t.ast) if isinstance(x, ast.Name) and x.id == holder]
+                        ctx.need(len(hn) >= 1, f'{qual}: `{short(pf.nsrc(t.ast), 60)}` uses the merge result `{holder}` other than as a truth value (unrecognised shape)')
+                        live = cx.labels_when_true(t.ast, hn[0])
+                        dead |= {(t.id, lab) for lab in ('T', 'F') if lab not in live}
+                starts = [(s, lab) for s, lab in n.succ if lab != 'exc']
+
+            def edge_ok(x: pf.Node, y: pf.Node, lab: str) -> bool:
+                return (x.id, lab) not in dead
 
             def is_reset(x: pf.Node) -> bool:
-                a = x.ast
-                return (x.kind == 'stmt' and isinstance(a, ast.Assign) and any(pf.nsrc(t) == 'self.sha' for t in a.targets)
-                        and isinstance(a.value, ast.Constant) and a.value.value is None)
+                a2 = x.ast
+                return (x.kind == 'stmt' and isinstance(a2, ast.Assign) and any(pf.nsrc(t) == 'self.sha' for t in a2.targets)
+                        and isinstance(a2.value, ast.Constant) and a2.value.value is None)
 
             # (i) no second merge
             again = None
-            for s in starts:
-                if s.id in all_merge_nodes:
-                    again = [n, s]
+            for s0, _lab in starts:
+                if s0.id in all_merge_nodes:
+                    again = [n, s0]
                     break
-                again = cfg.path_avoiding(s, lambda x: x.id in all_merge_nodes, lambda x: False)
+                again = cfg.path_avoiding(s0, lambda x: x.id in all_merge_nodes, lambda x: False, edge_ok=edge_ok)
                 if again:
                     break
             ctx.check(again is None, 'R3', cons + '::single',
@@ -521,15 +676,22 @@ def _check_one_merge(ctx: Ctx, m: pf.Module, facts: Facts, merge_calls: List[Tup
                       m.path, c.lineno)
             # (ii) sha reset before leaving
             leak = None
-            for s in starts:
-                if is_reset(s):
+            for s0, _lab in starts:
+                if is_reset(s0):
                     continue
-                if s is cfg.exit:
-                    leak = [n, s]
+                if s0 is cfg.exit:
+                    leak = [n, s0]
                     break
-                leak = cfg.path_avoiding(s, lambda x: x is cfg.exit, is_reset)
+                leak = cfg.path_avoiding(s0, lambda x: x is cfg.exit, is_reset, edge_ok=edge_ok)
                 if leak:
                     break
+            if leak is not None:
+                # a verdict needs the path to be understood: no call on it that could invalidate the target sha by other means
+                resetters = {f.name for f in m.cls('WatchedBranch').body if isinstance(f, (ast.FunctionDef, ast.AsyncFunctionDef))
+                             and any(isinstance(t, ast.Attribute) and t.attr == 'sha' for st2, t, _v in _attr_assigns(f))}
+                hidden = [x for x in leak if x.ast is not None and any((pf.dotted(cc.func) or '').startswith('self.') and (pf.dotted(cc.func) or '')[5:] in resetters
+                                                                          for cc in pf.node_calls(x))]
+                ctx.need(not hidden, f'{cons}: `{short(hidden[0].text(), 60) if hidden else ""}` on the way out calls a method that could not be inlined (not analysed)')
             ctx.check(leak is None, 'R3', cons + '::target-sha-reset',
                       'after a successful merge try_to_merge can return without `self.sha = None` '
                       + (f'[{_fmt_path(leak)}]' if leak else '') + ': if the following GitHub refresh fails, the next batch notification runs try_to_merge with the '
@@ -609,46 +771,65 @@ def _check_pin_and_reset(ctx: Ctx, m: pf.Module, sites) -> None:
             raise AnalysisError(f'PR.merge: {undecided[0]}')
         else:
             ctx.ok('R4', cons, {'bodies': [d.show() for d in alts], 'helpers': helpers})
-    # reset on head change
-    fn = m.func('PR.update_from_gh_json')
+    # reset on head change (update_from_gh_json read with its private helpers inlined)
+    m_u, il_u = inline.inline_methods(m, 'PR', 'update_from_gh_json', exclude=('set_build_state',))
+    fn = m_u.func('PR.update_from_gh_json')
     params = [a.arg for a in fn.args.args]
     ctx.need(len(params) == 2, f'PR.update_from_gh_json: parameters {params}')
     gh = params[1]
     head_sha = f"{gh}['head']['sha']"
     branch: Optional[List[ast.stmt]] = None
     the_if = None
-    for st in fn.body:
-        if isinstance(st, ast.If) and isinstance(st.test, ast.Compare) and len(st.test.ops) == 1:
-            sides = {_deep(fn, st.test.left), _deep(fn, st.test.comparators[0])}
-            if sides == {'self.source_sha', head_sha}:
-                if isinstance(st.test.ops[0], ast.NotEq):
-                    branch, the_if = st.body, st
-                elif isinstance(st.test.ops[0], ast.Eq):
-                    branch, the_if = st.orelse, st
+
+    def head_test(t: ast.expr) -> Optional[bool]:
+        """True: t says the head changed; False: t says it did not; None: another test"""
+        neg = False
+        while isinstance(t, ast.UnaryOp) and isinstance(t.op, ast.Not):
+            t, neg = t.operand, not neg
+        if isinstance(t, ast.Compare) and len(t.ops) == 1 and isinstance(t.ops[0], (ast.Eq, ast.NotEq)):
+            if {_deep(fn, t.left), _deep(fn, t.comparators[0])} == {'self.source_sha', head_sha}:
+                return isinstance(t.ops[0], ast.NotEq) != neg
+        return None
+    for idx, st in enumerate(fn.body):
+        if isinstance(st, ast.If):
+            ht = head_test(st.test)
+            if ht is True:
+                branch, the_if = list(st.body), st
+            elif ht is False and st.orelse:
+                branch, the_if = list(st.orelse), st
+            elif ht is False and st.body and isinstance(st.body[-1], ast.Return):
+                branch, the_if = list(fn.body[idx + 1:]), st  # guard clause: everything after it runs only when the head changed
     ctx.need(the_if is not None, f'PR.update_from_gh_json: no `if self.source_sha != {head_sha}` found')
     cons = f'{F}::PR.update_from_gh_json::head changed'
-    if not branch:
-        for what in ('records new head', 'clears batch', 'clears build state'):
-            ctx.bad('R4', f'{cons}::{what}', 'nothing is done when the head commit changes', m.path, the_if.lineno)  # type: ignore[union-attr]
-        return
+    pr_methods = {f.name for f in m.cls('PR').body if isinstance(f, (ast.FunctionDef, ast.AsyncFunctionDef))}
     found = {'records new head': False, 'clears batch': False, 'clears build state': False}
     nested = {k: False for k in found}
-    for st in branch:
+    opaque: List[str] = []
+    for st in branch or []:
         direct = True
         for n in ([st] if not isinstance(st, (ast.If, ast.Try, ast.For, ast.While, ast.With)) else list(ast.walk(st))):
             if n is not st:
                 direct = False
             hit = None
-            if isinstance(n, ast.Assign) and len(n.targets) == 1:
-                t = pf.nsrc(n.targets[0])
+            if isinstance(n, (ast.Assign, ast.AnnAssign)) and (not isinstance(n, ast.Assign) or len(n.targets) == 1) and n.value is not None:
+                t = pf.nsrc(n.targets[0] if isinstance(n, ast.Assign) else n.target)
                 if t == 'self.source_sha' and _deep(fn, n.value) == head_sha:
                     hit = 'records new head'
                 elif t == 'self.batch' and isinstance(n.value, ast.Constant) and n.value.value is None:
                     hit = 'clears batch'
                 elif t == 'self.build_state' and isinstance(n.value, ast.Constant) and n.value.value is None:
                     hit = 'clears build state'
-            elif isinstance(n, ast.Expr) and isinstance(n.value, ast.Call) and pf.nsrc(n.value) == 'self.set_build_state(None)':
+                elif t in ('self.source_sha', 'self.batch', 'self.build_state'):
+                    opaque.append(pf.nsrc(n))  # written, but not with the recognised value
+            elif isinstance(n, ast.Assign) and any(pf.nsrc(x) in ('self.source_sha', 'self.batch', 'self.build_state') for t2 in n.targets for x in ast.walk(t2)):
+                opaque.append(pf.nsrc(n))  # chained / tuple assignment
+            elif isinstance(n, ast.Expr) and isinstance(n.value, ast.Call) and pf.nsrc(n.value) in ('self.set_build_state(None)', 'self.set_build_state(build_state=None)'):
                 hit = 'clears build state'
+            if not hit and isinstance(n, ast.stmt) and not isinstance(n, (ast.If, ast.Try, ast.For, ast.While, ast.With)):
+                for cc in pf.calls_in(n):
+                    d = pf.dotted(cc.func) or ''
+                    if d.startswith('self.') and d[5:] in pr_methods and d[5:] not in ('short_str', 'set_build_state'):
+                        opaque.append(pf.nsrc(cc))  # a helper that could not be inlined may do the missing step
             if hit:
                 if direct and n is st:
                     found[hit] = True
@@ -664,7 +845,10 @@ def _check_pin_and_reset(ctx: Ctx, m: pf.Module, sites) -> None:
     for what, ok in found.items():
         if not ok and nested[what]:
             raise AnalysisError(f'PR.update_from_gh_json: `{what}` happens only under a nested condition - cannot decide')
-        ctx.check(ok, 'R4', f'{cons}::{what}', f'when the head commit changes the handler does not do `{what}`: {why[what]}', m.path, the_if.lineno)  # type: ignore[union-attr]
+        if not ok and opaque:
+            raise AnalysisError(f'PR.update_from_gh_json: `{what}` not found on a head change, but `{short(opaque[0], 60)}` is not understood - cannot decide')
+        ctx.check(ok, 'R4', f'{cons}::{what}', f'when the head commit changes the handler does not do `{what}` (every statement of that branch is understood): {why[what]}',
+                  m.path, the_if.lineno)  # type: ignore[union-attr]
 
 
 # --------------------------------------------------------------------------------------
@@ -1823,7 +2007,8 @@ def run(ctx: Ctx) -> None:
     ctx.unit('files', len(mods))
     ctx.unit('functions', sum(len(mm.functions()) for mm in mods))
     m = pf.load(F)
-    facts = Facts(m.cls('PR'))
+    _MODULE['m'] = m
+    facts = cx.PRFacts(m.cls('PR'))
     errors: List[str] = []
     sites: List = []
     merge_calls: List = []
